@@ -29,7 +29,7 @@ func init() {
 		ID: "C19", Level: "model_checking", Race: true,
 		Rule:   "SPX under -race: eight harnesses (server: SETTINGS vs response encoding; RST_STREAM vs running handler vs next request; ping/idle/request timers vs teardown; streamed response vs WINDOW_UPDATE vs disconnect mid-frame; client: two callers vs responses vs Close; timeout vs late response vs Ctx reuse vs SETTINGS; GOAWAY vs new request; upload vs window grants vs reset), each starting after a canonical prelude (handshake, one warm exchange). Every schedule with <= 1 (quick) / <= 2 (thorough) deviations from the run-to-quiescence default is executed on the real goroutines; decision points are all synchronisation operations (channel ops, select, mutex, atomics, transport I/O, goroutine start, timer firing). Oracles per schedule: race detector report (tied to the schedule through its log), pool tracker (double release, release while a handler owns the object), no unrecovered panic, replay of the prefix never diverges. Non-trivial: a schedule with >= 1 decision point; distinct by scenario+schedule.",
 		Assume: []string{"race detection is happens-before based on the program's own synchronisation (real atomics; mutex, channel, pool, timer and goroutine-start edges annotated by the shims); weak-memory reorderings are not modelled", "fasthttp, bufio and the runtime are trusted; TLS is a pass-through"},
-		Run:    runC19, Replay: replayC19, QuickS: 240, ThoroughS: 1500,
+		Run:    runC19, Replay: replayC19, QuickS: 240, ThoroughS: 2400,
 	})
 }
 
@@ -549,48 +549,63 @@ func poolShape(e string) string {
 }
 
 func runC19(c *fw.Ctx) {
-	var item int64
 	completed := map[string]int{}
-	for _, sc := range c19Scenarios() {
-		sc := sc
-		// the server harnesses have ~40 decision points, the client ones ~130
-		bound := 1
-		if sc.Role == "server" {
-			bound = 2
-		}
-		if c.Tier == "thorough" {
-			bound++
-		}
-		capped, schedules, maxPts := spxSearch(c, "C19 "+sc.Name, sc.Name, bound, &item, func(prefix []int) spxOutcome {
-			r := spxExec(sc, prefix)
-			out := spxOutcome{Points: r.Points, Steps: r.Steps, Obs: r.Obs}
-			rep := map[string]any{"family": "spx", "scenario": sc.Name, "prefix": prefix}
-			if r.Race != "" {
-				for _, one := range splitRaces(r.Race) {
-					out.Viol = append(out.Viol, fw.Violation{Rule: "data-race", Shape: fw.RaceShape(one), Detail: trimReport(one), Replay: rep})
+	cappedAt := map[string]string{}
+	maxPts := map[string]int{}
+	scs := c19Scenarios()
+	// iterative deepening over all harnesses: bound 1 everywhere, then 2, then 3
+	for b := 1; b <= 3; b++ {
+		for si, sc := range scs {
+			sc := sc
+			// the server harnesses have ~40 decision points, the client ones ~130
+			top := 1
+			if sc.Role == "server" {
+				top = 2
+			}
+			if c.Tier == "thorough" {
+				top++
+			}
+			if b > top || cappedAt[sc.Name] != "" {
+				continue
+			}
+			item := int64(si) << 40
+			capped, schedules, pts := spxSearch(c, "C19 "+sc.Name, sc.Name, b, b, &item, func(prefix []int) spxOutcome {
+				r := spxExec(sc, prefix)
+				out := spxOutcome{Points: r.Points, Steps: r.Steps, Obs: r.Obs}
+				rep := map[string]any{"family": "spx", "scenario": sc.Name, "prefix": prefix}
+				if r.Race != "" {
+					for _, one := range splitRaces(r.Race) {
+						out.Viol = append(out.Viol, fw.Violation{Rule: "data-race", Shape: fw.RaceShape(one), Detail: trimReport(one), Replay: rep})
+					}
 				}
+				for _, p := range r.Problems {
+					parts := strings.SplitN(p, "\x00", 3)
+					out.Viol = append(out.Viol, fw.Violation{Rule: parts[0], Shape: parts[1], Detail: parts[2], Replay: rep})
+				}
+				return out
+			})
+			if pts > maxPts[sc.Name] {
+				maxPts[sc.Name] = pts
 			}
-			for _, p := range r.Problems {
-				parts := strings.SplitN(p, "\x00", 3)
-				out.Viol = append(out.Viol, fw.Violation{Rule: parts[0], Shape: parts[1], Detail: parts[2], Replay: rep})
+			if capped {
+				cappedAt[sc.Name] = fmt.Sprintf("time budget reached at deviation bound %d after %d schedules of this shard", b, schedules)
+			} else {
+				completed[sc.Name] = b
 			}
-			return out
-		})
-		if capped {
-			c.Bound["capped:"+sc.Name] = fmt.Sprintf("time budget reached after %d schedules of this shard", schedules)
-		} else {
-			completed[sc.Name] = bound
 		}
+	}
+	for _, sc := range scs {
 		c.Family(sc.Name)
-		c.Bound["points:"+sc.Name] = maxPts
+		c.Bound["points:"+sc.Name] = maxPts[sc.Name]
+		c.Bound["deviation_bound_completed:"+sc.Name] = completed[sc.Name]
+		if cappedAt[sc.Name] != "" {
+			c.Bound["capped:"+sc.Name] = cappedAt[sc.Name]
+		}
 	}
 	if teardownReports > 0 {
 		c.Note(fmt.Sprintf("%d executions produced detector output while their goroutines were being unwound (discarded: teardown artefact)", teardownReports))
 	}
-	for k, v := range completed {
-		c.Bound["deviation_bound_completed:"+k] = v
-	}
-	c.Bound["scenarios"] = len(c19Scenarios())
+	c.Bound["scenarios"] = len(scs)
 }
 
 func splitRaces(log string) []string {
